@@ -195,6 +195,7 @@ struct stack_policy
     {
         long        off[8];
         std::size_t cap[8];
+        std::size_t next[9]; // next_capacity() before the first probe and after every probe
         int         n;
     };
     template <class W>
@@ -207,6 +208,7 @@ struct stack_policy
         w.h.up.cur_owner = u32(s);
         // each request of the alphabet twice, then enough requests to force a growth
         int total = int(ALLOCS.size()) * 2 + 2;
+        pr.next[0] = o.next_capacity();
         for (int i = 0; i < total && pr.n < 8; ++i)
         {
             const auto& r = ALLOCS[std::size_t(i) % ALLOCS.size()].r;
@@ -223,6 +225,7 @@ struct stack_policy
             });
             pr.off[pr.n] = (oc == OUT_OK && p) ? long(w.h.up.offset_of(static_cast<u8*>(p))) : -1 - oc;
             pr.cap[pr.n] = oc == OUT_OK ? o.capacity_left() : 0;
+            pr.next[pr.n + 1] = oc == OUT_OK ? o.next_capacity() : 0;
             ++pr.n;
             if (oc != OUT_OK)
                 break;
@@ -353,6 +356,9 @@ struct stack_policy
             g_up() = &w.h.up;
             if (a.n != b.n)
                 t.fail("M-unwind", "twin-differs", "probe sequence ended differently after unwind than at the marker");
+            else if (a.next[0] != b.next[0])
+                t.fail("M-unwind", "twin-differs",
+                       fmt("next_capacity() is %zu after unwind(m%u), it was %zu when the marker was taken (nothing was released by unwinding)", a.next[0], j, b.next[0]));
             else
                 for (int k = 0; k < a.n; ++k)
                     if (a.off[k] != b.off[k] || a.cap[k] != b.cap[k])
